@@ -59,22 +59,28 @@ def classifyMain : IO UInt32 := do
   IO.println s!"oddconst={boolStr r.2.oddConst} ops={used.length} flips={r.2.used}"
   return 0
 
-/-- for every even k in [minK, 254] the schedule raw ↦ raw/√2 keeps `2·ne(next r) ≥ ne r` while ne(next r) ≥ minK, and ne(float k) = k -/
+/-- `SecOK reqTun secF32` by execution: for every k the constructor can produce (`effectiveK`, all k0 < 65536 give the even values
+in [max(MIN_K,…), 254]) `ne (float k) = k`, and along the WHOLE schedule r_{j+1} = r_j / sqrtf(2) (followed until it reaches its
+fixed point 0): if `ne r_{j+1} ≥ MIN_K` then `ne r_j ≤ 2 · ne r_{j+1}` -/
 def selftest : IO UInt32 := do
   let mut bad := 0
   let mut steps := 0
-  for i in [0:128] do
-    let k := 2 * i
-    if k ≥ reqTun.minK then
-      let mut r := secF32.ofNat k
-      if secF32.ne r != k then bad := bad + 1
-      for _ in [0:40] do
-        let r' := secF32.next r
-        if secF32.ne r' ≥ reqTun.minK then
-          steps := steps + 1
-          if 2 * secF32.ne r' < secF32.ne r then bad := bad + 1
-          r := r'
-  IO.println s!"selftest steps={steps} bad={bad}"
+  let mut ks : Array Nat := #[]
+  for k0 in [0:65536] do
+    let k := effectiveK reqTun k0
+    if !ks.contains k then ks := ks.push k
+  for k in ks do
+    let mut r := secF32.ofNat k
+    if secF32.ne r != k then bad := bad + 1
+    for _ in [0:600] do
+      let r' := secF32.next r
+      steps := steps + 1
+      if secF32.ne r' ≥ reqTun.minK then
+        if 2 * secF32.ne r' < secF32.ne r then bad := bad + 1
+      r := r'
+    -- fixed point reached: the remaining (infinitely many) points of the schedule are this one
+    if !(secF32.next r == r) then bad := bad + 1
+  IO.println s!"selftest ks={ks.size} steps={steps} bad={bad}"
   return (if bad == 0 then 0 else 1)
 
 def main (args : List String) : IO UInt32 := do
